@@ -14,7 +14,7 @@ use crate::voice::GenOpts;
 use crate::{ensure, fail};
 
 use super::c09::{gen_text_times, timed_lines};
-use super::{no_custom, no_extra, PropertyDef};
+use super::{no_extra, PropertyDef};
 
 pub fn def() -> PropertyDef {
     PropertyDef {
@@ -22,7 +22,7 @@ pub fn def() -> PropertyDef {
         level: "exploration",
         props: |_| vec![Box::new(InputForms) as Box<dyn DynProp>, Box::new(Corruptions) as Box<dyn DynProp>],
         extra: no_extra,
-        replay_custom: no_custom,
+        replay_custom,
         assumptions: &[
             "forms compared bitwise: &[String], &[&str], &[&str; N] (N in {1,2,3,5,8,13}), Vec<String>, Vec<Label> (parsed by the harness with jlabel), the same lines with blank lines inserted, and with '<start> <end> ' time stamps while alignment is off",
             "corrupted text: the call must return Ok or Err(EngineError::LabelError), never panic; with alignment on only finite times below 10 minutes are used (non-finite times with alignment on are outside the property)",
@@ -320,5 +320,18 @@ impl Prop for Corruptions {
         rep.classes.sort();
         rep.classes.dedup();
         Ok(rep)
+    }
+}
+
+/// Replay of a libFuzzer `label_text` artifact: {"kind": "label-text-file", "path": ...}
+fn replay_custom(s: &mut crate::runner::Session, v: &serde_json::Value) -> bool {
+    let Some(path) = v.get("path").and_then(|p| p.as_str()) else { return false };
+    let Ok(data) = std::fs::read(path) else {
+        eprintln!("cannot read {}", path);
+        return false;
+    };
+    match crate::fuzz_support::label_text_check(&data) {
+        Ok(()) => true,
+        Err(f) => !s.failure("fuzz-label-text", &f, serde_json::json!({ "kind": "label-text-file", "path": path })),
     }
 }
